@@ -103,7 +103,37 @@ func execFnCase(c fnCase, _ core.Source) (res core.Result) {
 			res.Violation = core.Violate("C16/Concatenate/operand-changed", "%s changed an operand: %v %v", desc, a.AsArray(), b.AsArray())
 			return
 		}
-		// purity: mutate the result, then the operands
+		// purity: mutate the result, then the operands -- in place first (a shared backing array
+		// survives only until the next structural change), then structurally
+		if r.GetSize() > 0 {
+			r.SetValue(1, 98)
+			r.SetValue(-1, 97)
+			r.ReverseValues()
+			r.SortValues()
+		}
+		if !lib.EqInts(a.AsArray(), c.A) || !lib.EqInts(b.AsArray(), bvals) {
+			res.Violation = core.Violate("C16/Concatenate/result-aliases-operand", "mutating the result of %s in place changed an operand: %v %v", desc, a.AsArray(), b.AsArray())
+			return
+		}
+		inplace := r.AsArray()
+		if a.GetSize() > 0 {
+			a.SetValue(1, 76)
+			a.ReverseValues()
+		}
+		if b.GetSize() > 0 {
+			b.SetValue(-1, 75)
+			b.SortValues()
+		}
+		if !lib.EqInts(r.AsArray(), inplace) {
+			res.Violation = core.Violate("C16/Concatenate/operand-aliases-result", "mutating an operand of %s in place changed the result: %v -> %v", desc, inplace, r.AsArray())
+			return
+		}
+		a = L.MakeFromArray(c.A)
+		b = a
+		if !c.Alias {
+			b = L.MakeFromArray(c.B)
+		}
+		r = L.Concatenate(a, b)
 		r.AppendValue(99)
 		if r.GetSize() > 1 {
 			r.SetValue(1, 98)
@@ -183,7 +213,13 @@ func execFnCase(c fnCase, _ core.Source) (res core.Result) {
 			res.Violation = core.Violate("C16/Merge/operand-changed", "%s changed an operand: %s %s", desc, pairsString(catalogPairs(a)), pairsString(catalogPairs(b)))
 			return
 		}
-		// purity: SetValue on a shared key, remove, add on the result
+		// purity: reorder in place first, then SetValue on a shared key, remove, add on the result
+		r.ReverseValues()
+		r.SortValues()
+		if !eqPairs(catalogPairs(a), pa) || !eqPairs(catalogPairs(b), pb) {
+			res.Violation = core.Violate("C16/Merge/result-aliases-operand", "reordering the result of %s changed an operand: %s %s", desc, pairsString(catalogPairs(a)), pairsString(catalogPairs(b)))
+			return
+		}
 		for _, q := range want {
 			r.SetValue(q.K, -1)
 		}
